@@ -43,6 +43,11 @@ def l_eq(F, R):
         for a in iw.assumptions | il.assumptions:
             R.assume(a)
         d = w - l
+        if not d.is_zero():
+            from lensum import onehot_normalise
+            enums = dict(iw.enums)
+            enums.update(il.enums)
+            d = onehot_normalise(F, d, enums)
         residual = [x for x in refine_default(F, d) if not x.is_zero()] if not d.is_zero() else []
         if residual:
             wit = witness(residual[0])
